@@ -1154,7 +1154,10 @@ class Fxp():
             Fxp with it's value modified. 
         """
         
-        if isinstance(x, Fxp):
+        if isinstance(x, Fxp) and (x.scaled or self.scaled):
+            # a scaled source or destination: the value (not the raw code) is what is converted, like in set_val
+            self.set_val(x, index=index)
+        elif isinstance(x, Fxp):
             raw_val = x.val
 
             new_val_raw = utils.scale_raw(raw_val, self.n_frac - x.n_frac)
@@ -1734,6 +1737,9 @@ class Fxp():
 
     def like(self, x):
         if isinstance(x, self.__class__):
+            if self.scaled or x.scaled:
+                # a scaled source or template: the value (not the raw code) is what is converted, like in set_val
+                return x.deepcopy().set_val(self)
             new_raw_val = utils.scale_raw(self.val, x.n_frac - self.n_frac)
             return  x.deepcopy().set_val(new_raw_val, raw=True)
         else:
